@@ -241,11 +241,17 @@ Section DictCall.
                   | _, _ => None
                   end
     end.
-  (* res[key] = res.apply(value, key = key) *)
+  (* res[key] = res.apply(value, key = key).  apply hands ALL entries of res as keywords to
+     kwargs_support(function).__call__(self, ...): an entry literally named self collides with the method's own
+     self parameter and the call raises TypeError, whatever the callable declares *)
   Definition eval1 (res : amap V) (kc : fdef) : option (amap V) :=
-    match args res (fst kc) (fst (snd kc)) with
-    | Some vs => Some (aset (fst kc) (snd (snd kc) vs) res)
-    | None => None
+    match aget "self" res with
+    | Some _ => None
+    | None =>
+        match args res (fst kc) (fst (snd kc)) with
+        | Some vs => Some (aset (fst kc) (snd (snd kc) vs) res)
+        | None => None
+        end
     end.
   Fixpoint eval_seq (res : amap V) (l : list fdef) : option (amap V) :=
     match l with
@@ -284,8 +290,10 @@ Section DictCall.
   Definition funs (kw : list (string * item)) : list fdef :=
     flat_map (fun kv => match snd kv with IFun ds fn => [(fst kv, (ds, fn))] | IConst _ => [] end) kw.
 
+  (* Dict.__call__(self, **kwargs): a keyword named self cannot be bound (TypeError before anything is evaluated) *)
   Definition dict_call (base : amap V) (kw : list (string * item)) : cres :=
-    call_loop (List.length (funs kw)) (funs kw) (aupdate base (consts kw)).
+    if inl "self" (map fst kw) then CErr "TypeError"
+    else call_loop (List.length (funs kw)) (funs kw) (aupdate base (consts kw)).
 End DictCall.
 Arguments IConst {V} v.
 Arguments IFun {V} deps fn.
